@@ -200,6 +200,8 @@ func runC20(c *Ctx) {
 	c20Encoded(c)
 	c20Extra(c)
 	c20ErrorFormatWired(c)
+	c20ExitCodeSurvives(c)
+	c20GroupingKeepsOrder(c)
 }
 
 var c20ControllerNoAnnotations = map[string]string{
